@@ -552,32 +552,29 @@ __CPROVER_ensures(IMPLIES(__CPROVER_return_value.code == REG_ACCESS_SUCCESS && r
     *g_cell == __CPROVER_old(*g_cell)))
 ;
 
-/* ---- sanitise (tier B: tables of at most RT_SAN_EMAX registers) ------------------ */
+/* ---- sanitise: the whole function (tier A-len: tables of at most RT_SAN_EMAX
+ * registers; inductive over the entries by the loop contract in
+ * contracts/registers-sanitise.loops) ----------------------------------------
+ *
+ * Everything is stated for ONE arbitrary register g_reg and ONE arbitrary
+ * valid word g_cell; the ghosts of spec/registers-sanitise.h name the facts
+ * about them that do not change while sanitise runs.  What is required of
+ * EVERY register (universal preconditions cannot be stated at a ghost index)
+ * is spelled out for the handles 0 .. RT_SAN_EMAX-1, hence the cap. */
+#include "spec/registers-sanitise.h"
 
-#ifndef RT_SAN_EMAX
-#define RT_SAN_EMAX 2
-#endif
-#if RT_SAN_EMAX == 1
-#define RT_SAN_ALL(P) (P(0u))
-#define RT_SAN_PAIRS(P) (1)
-#elif RT_SAN_EMAX == 2
+extern bool g_rs_all_cf;         /* ghost: no register can make sanitise fail */
+
+#if RT_SAN_EMAX <= 2
 #define RT_SAN_ALL(P) (P(0u) && P(1u))
-#define RT_SAN_PAIRS(P) (P(0u, 1u))
+#elif RT_SAN_EMAX <= 4
+#define RT_SAN_ALL(P) (P(0u) && P(1u) && P(2u) && P(3u))
+#elif RT_SAN_EMAX <= 8
+#define RT_SAN_ALL(P) (P(0u) && P(1u) && P(2u) && P(3u) && P(4u) && P(5u) && P(6u) && P(7u))
 #else
-#define RT_SAN_ALL(P) (P(0u) && P(1u) && P(2u))
-#define RT_SAN_PAIRS(P) (P(0u, 1u) && P(0u, 2u) && P(1u, 2u))
+#define RT_SAN_ALL(P) (P(0u) && P(1u) && P(2u) && P(3u) && P(4u) && P(5u) && P(6u) && P(7u) \
+  && P(8u) && P(9u) && P(10u) && P(11u) && P(12u) && P(13u) && P(14u) && P(15u))
 #endif
-
-extern RegisterHandle g_reg;     /* ghost: an arbitrary register handle */
-
-/* every register is well formed, readable and writable through a known
- * callback, constrained by none/min/max/range/callback (as in the statement),
- * its flags are writable, and no two registers share storage words */
-#define RT_SAN_ENTRY_OK(i) \
-  IMPLIES((i) < t->entries, RT_ENTRY_RW_OK(t, i) \
-    && t->entry[i].check.type != REGV_TYPE_FAIL \
-    && __CPROVER_rw_ok(&t->entry[i].flags, sizeof(uint16_t)))
-#define RT_SAN_PAIR_OK(i, j) IMPLIES((j) < t->entries, rt_disjoint(t, i, j))
 
 /* register i is memory backed and its default is acceptable: then nothing can
  * make sanitise fail at it */
@@ -586,45 +583,71 @@ static inline bool rt_san_cannot_fail(const RegisterTable *t, RegisterHandle i)
   const RegisterArea a = *t->entry[i].area;
   return a.read == reg_mem_read && a.write == reg_mem_write && RT_ACC(t, i, rt_default_bits(t, i));
 }
-#define RT_SAN_CANNOT_FAIL(i) IMPLIES((i) < t->entries, rt_san_cannot_fail(t, i))
-#define RT_SAN_CELL_OUTSIDE(i) IMPLIES((i) < t->entries, rt_cell_outside(t, i, g_cell))
 
-/* width-conditional assigns targets of register i and its flags */
-#define RT_SAN_ASSIGNS(i) \
-    RT_INIT(t) && (i) < t->entries: t->entry[i].flags; \
-    RT_INIT(t) && (i) < t->entries && SPEC_REG_W1(RT_TY(t, i)): __CPROVER_object_upto(RT_W(t, i), 1u * sizeof(RegisterAtom)); \
-    RT_INIT(t) && (i) < t->entries && SPEC_REG_W2(RT_TY(t, i)): __CPROVER_object_upto(RT_W(t, i), 2u * sizeof(RegisterAtom)); \
-    RT_INIT(t) && (i) < t->entries && SPEC_REG_W4(RT_TY(t, i)): __CPROVER_object_upto(RT_W(t, i), 4u * sizeof(RegisterAtom))
-#if RT_SAN_EMAX == 1
-#define RT_SAN_ASSIGNS_ALL RT_SAN_ASSIGNS(0u)
-#elif RT_SAN_EMAX == 2
-#define RT_SAN_ASSIGNS_ALL RT_SAN_ASSIGNS(0u); RT_SAN_ASSIGNS(1u)
-#else
-#define RT_SAN_ASSIGNS_ALL RT_SAN_ASSIGNS(0u); RT_SAN_ASSIGNS(1u); RT_SAN_ASSIGNS(2u)
-#endif
+/* what is required of register k (if the table has one): it is well formed,
+ * readable and writable through a known callback, constrained by
+ * none/min/max/range/callback (as in the statement), its flag word is
+ * writable, it shares no storage word with register g_reg (table
+ * well-formedness, C04) -- and what the ghost booleans claim about it */
+static inline bool rt_san_entry_pre(const RegisterTable *t, RegisterHandle k)
+{
+  if (k >= t->entries)
+    return true;
+  if (!rt_entry_ok(t, k, true, true))
+    return false;
+  if (t->entry[k].check.type == REGV_TYPE_FAIL)
+    return false;
+  if (!__CPROVER_rw_ok(&t->entry[k].flags, sizeof(uint16_t)))
+    return false;
+  if (g_reg < t->entries && k != g_reg && !rt_disjoint(t, k, g_reg))
+    return false;
+  if (g_rs_cell_free && !rt_cell_outside(t, k, g_cell))
+    return false;
+  if (g_rs_all_cf && !rt_san_cannot_fail(t, k))
+    return false;
+  return true;
+}
+#define RT_SAN_ENTRY_PRE(k) rt_san_entry_pre(t, k)
+
+/* the ghosts say what they are named after (register g_reg of table t) */
+static inline bool rt_san_ghosts_ok(const RegisterTable *t)
+{
+  const RegisterEntry e = t->entry[g_reg];
+  return g_rs_w == e.area->mem + e.offset
+      && g_rs_fl == &t->entry[g_reg].flags
+      && g_rs_n == SPEC_REG_WORDS(e.type)
+      && g_rs_be == RT_BE(t)
+      && g_rs_flags0 == e.flags
+      && g_old_bits == rt_bits(t, g_reg)
+      && g_rs_defbits == SPEC_BITS(e.type, e.default_value)
+      && g_rs_old_acc == RT_ACC(t, g_reg, g_old_bits)
+      && g_rs_def_acc == RT_ACC(t, g_reg, g_rs_defbits);
+}
 
 RegisterAccess register_sanitise(RegisterTable *t)
 __CPROVER_requires(__CPROVER_r_ok(t, sizeof(RegisterTable)))
 __CPROVER_requires(__CPROVER_rw_ok(g_cell, sizeof(RegisterAtom)))
-__CPROVER_requires(IMPLIES(RT_INIT(t), t->entries <= RT_SAN_EMAX && RT_SAN_ALL(RT_SAN_ENTRY_OK) && RT_SAN_PAIRS(RT_SAN_PAIR_OK)))
+__CPROVER_requires(IMPLIES(RT_INIT(t), t->entries <= RT_SAN_EMAX && RT_SAN_ALL(RT_SAN_ENTRY_PRE)))
 /* nothing is required of the CONTENT of the storage: arbitrary corruption */
-__CPROVER_requires(IMPLIES(RT_INIT(t) && g_reg < t->entries, g_old_bits == rt_bits(t, g_reg)))
-__CPROVER_assigns(st_rd_verdict, st_wr_verdict; RT_SAN_ASSIGNS_ALL)
+__CPROVER_requires(IMPLIES(RT_INIT(t) && g_reg < t->entries, rt_san_ghosts_ok(t)))
+__CPROVER_assigns(st_rd_verdict, st_wr_verdict; RS_ALL_TGT(t))
 __CPROVER_ensures(IMPLIES(!RT_INIT(t),
     __CPROVER_return_value.code == REG_ACCESS_UNINITIALISED && *g_cell == __CPROVER_old(*g_cell)))
 /* success: a register whose content decoded and met its constraint keeps its
- * value, any other is reset to its default; all touched marks are cleared;
- * hence every register now decodes and satisfies its constraint */
+ * value, any other is reset to its default; all touched marks are cleared (no
+ * other flag changes); hence every register now decodes and satisfies its
+ * constraint */
 __CPROVER_ensures(IMPLIES(RT_INIT(t) && __CPROVER_return_value.code == REG_ACCESS_SUCCESS && g_reg < t->entries,
     (RT_ACC(t, g_reg, g_old_bits)
        ? rt_bits(t, g_reg) == g_old_bits
        : rt_holds(t, g_reg, rt_default_bits(t, g_reg)))
     && (t->entry[g_reg].flags & REG_EF_TOUCHED) == 0
+    && (t->entry[g_reg].flags | REG_EF_TOUCHED) == (g_rs_flags0 | REG_EF_TOUCHED)
     && RT_ACC(t, g_reg, rt_bits(t, g_reg))))
 /* it can only fail where a default cannot be loaded or a device refuses */
-__CPROVER_ensures(IMPLIES(RT_INIT(t) && RT_SAN_ALL(RT_SAN_CANNOT_FAIL), __CPROVER_return_value.code == REG_ACCESS_SUCCESS))
-/* words that belong to no register are never touched */
-__CPROVER_ensures(IMPLIES(RT_INIT(t) && RT_SAN_ALL(RT_SAN_CELL_OUTSIDE), *g_cell == __CPROVER_old(*g_cell)))
+__CPROVER_ensures(IMPLIES(RT_INIT(t) && g_rs_all_cf, __CPROVER_return_value.code == REG_ACCESS_SUCCESS))
+/* words that belong to no register are never touched (success or not) */
+__CPROVER_ensures(IMPLIES(RT_INIT(t) && g_rs_cell_free, *g_cell == __CPROVER_old(*g_cell)))
 __CPROVER_ensures(t->flags == __CPROVER_old(t->flags) && t->entries == __CPROVER_old(t->entries)
     && t->entry == __CPROVER_old(t->entry))
 ;
